@@ -96,8 +96,16 @@ def write_dataset(P, path, writer, nparts):
         _ = ddf.geometry.total_bounds, ddf["polys"].partition_bounds
         keep = P["val"].tolist()[1::2] + P["val"].tolist()[:2]
         ddf[ddf["val"].isin(keep)].to_parquet(path)
+    elif writer == "cx_partitions":
+        # history: whole partitions selected with cx_partitions (a scattered set: rows with y in [0.5, 3.5] are rows 5, 7, 14),
+        # and the selection written
+        ddf.cx_partitions[:, 0.5 / scale_of(P):3.5 / scale_of(P)].to_parquet(path)
     else:
         ddf.pack_partitions_to_parquet(path, npartitions=nparts, p=8, _retry_args=RETRY)
+
+
+def scale_of(P):
+    return 3 if float(P["pts"].array.total_bounds[3]) < 6 else 1
 
 
 def common_metadata_bounds(path):
@@ -280,15 +288,68 @@ def check_dataset(col, scratch, writer, nparts, multi, thorough, seed, variant="
     col.sample(dict(case0, note="16-row frame with missing rows; boxes incl. ones touching a partition extent exactly"))
 
 
+def check_mixed(col, scratch, order):
+    """a list naming one dataset that carries stored partition bounds and one that does not (written by the pandas writer):
+    nothing recorded may be trusted for the second; extents, partition bounds and pruning must still cover every row"""
+    import pandas as pd
+    from spatialpandas import GeoDataFrame
+    from spatialpandas.io import read_parquet_dask
+    S = "synchronous"
+    base = os.path.join(scratch, f"c12m-{os.getpid()}")
+    shutil.rmtree(base, ignore_errors=True)
+    os.makedirs(base)
+    A, B = make_frame(16), make_frame(6, shift=100)
+    pa_, pb_ = os.path.join(base, "a.parq"), os.path.join(base, "b.parq")
+    write_dataset(A, pa_, "to_parquet", 3)
+    B.to_parquet(pb_)                                  # one file, no _common_metadata
+    arg = [pa_, pb_] if order == "with_first" else [pb_, pa_]
+    for geometry in (None, "pts"):
+        active = geometry or "polys"
+        case = {"writer": "mixed", "npartitions": 3, "multi": order, "variant": "mixed", "geometry": geometry}
+        col.count("evaluations", 4)
+        try:
+            r = read_parquet_dask(arg, geometry=geometry)
+            parts = [d.compute(scheduler=S) for d in r.to_delayed()]
+            whole = GeoDataFrame(pd.concat(parts)).set_geometry(active)
+            ext = [extent_of(p[active]) for p in parts]
+            tb = tuple(float(v) for v in r[active].total_bounds)
+            want_tb = tuple(float(v) for v in whole[active].array.total_bounds)
+            if not same(tb, want_tb):
+                col.violation("mixed.total_bounds", case, f"total_bounds {tb} but the rows extend over {want_tb}")
+            pbd = r[active].partition_bounds
+            rec = [tuple(float(v) for v in row) for row in pbd[["x0", "y0", "x1", "y1"]].values]
+            if len(rec) != len(ext) or not all(same(a, b) for a, b in zip(rec, ext)):
+                col.violation("mixed.partition_bounds", case, f"partition_bounds {rec} but the partitions extend over {ext}")
+            if sorted(whole["val"].tolist()) != sorted(A["val"].tolist() + B["val"].tolist()):
+                col.violation("mixed.rows", case, f"rows {sorted(whole['val'].tolist())}")
+            for b in ((99.0, -1.0, 103.5, 20.0), (-1.0, -1.0, 8.5, 9.5), (0.0, 0.0, 140.0, 40.0), (50.0, 0.0, 60.0, 5.0)):
+                col.count("evaluations", 2)
+                need = whole.cx[b[0]:b[2], b[1]:b[3]]["val"].tolist()
+                got = r.cx[b[0]:b[2], b[1]:b[3]].compute(scheduler=S)["val"].tolist()
+                if sorted(got) != sorted(need):
+                    col.violation("mixed.cx", dict(case, bounds=list(b)), f"cx {b}: rows {sorted(got)} expected {sorted(need)}")
+                have = read_parquet_dask(arg, geometry=geometry, bounds=b).compute(scheduler=S)["val"].tolist()
+                if not set(need) <= set(have):
+                    col.violation("mixed.pruning.lost_rows", dict(case, bounds=list(b)), f"bounds {b}: rows {need} intersect the box, kept {have}")
+        except Exception as ex:
+            col.violation("mixed.raises", case, f"{type(ex).__name__}: {str(ex)[:250]}")
+    shutil.rmtree(base, ignore_errors=True)
+
+
 def run(ctx):
     scratch = ctx.scratch()
     units = []
+    units.append(("mixed", 3, "with_first"))
+    units.append(("mixed", 3, "without_first"))
     for writer in ("to_parquet", "pack", "to_parquet_filtered"):
         for nparts in (range(1, 17) if writer != "to_parquet_filtered" else (1, 2, 3, 5, 8, 12)):
             multis = ("single", "list", "glob", "list_reversed") if ctx.thorough else \
                 (("single",) + ((("list", "glob", "list_reversed")[(nparts + ctx.seed) % 3],) if nparts in (2, 5, 11, 12, 16) else ()))
             for m in multis:
                 units.append((writer, nparts, m))
+    for nparts in (5, 9, 12, 16):
+        units.append(("cx_partitions", nparts, "single"))
+    units.append(("cx_partitions", 16, "list"))
     for writer in ("to_parquet", "pack"):
         for nparts in (3, 8, 12):
             units.append((writer, nparts, "single", "thirds"))
@@ -300,6 +361,9 @@ def run(ctx):
 
     def work(col, i):
         w, n, m = units[i][:3]
+        if w == "mixed":
+            check_mixed(col, scratch, m)
+            return
         check_dataset(col, scratch, w, n, m, ctx.thorough, ctx.seed, variant=units[i][3] if len(units[i]) > 3 else "int")
 
     units.sort(key=lambda u: -u[1])
@@ -316,5 +380,8 @@ def run(ctx):
 
 def replay(ctx, case):
     col = core.Collector()
+    if case.get("writer") == "mixed":
+        check_mixed(col, ctx.scratch(), case["multi"])
+        return col.violations
     check_dataset(col, ctx.scratch(), case["writer"], case["npartitions"], case["multi"], True, 0, variant=case.get("variant", "int"))
     return col.violations
